@@ -1642,6 +1642,22 @@ def m_saturating(I, st, t, args, site, depth):
     return None
 
 
+def m_default(I, st, t, args, site, depth):
+    sty = t.callee.self_ty or ""
+    if sty in INT_BITS:
+        return [(st, 0)]
+    if sty == "bool":
+        return [(st, 0)]
+    return None
+
+
+def m_str_len(I, st, t, args, site, depth):
+    v = deref_arg(I, st, args[0])
+    if isinstance(v, tuple) and v and v[0] == "str":
+        return [(st, len(v[1].encode("utf-8")))]
+    return [(st, ("len", tform(v)))]
+
+
 def m_min(I, st, t, args, site, depth):
     a, b = args[0], args[1]
     if isinstance(a, int) and isinstance(b, int):
@@ -1673,6 +1689,9 @@ DEFAULT_MODELS = {
     "num_traits::FromPrimitive::from_u8": m_from_u8,
     "num_traits::FromPrimitive::from_u16": m_from_u8,
     "num_traits::FromPrimitive::from_u32": m_from_u8,
+    "std::default::Default::default": m_default,
+    "core::str::len": m_str_len,
+    "std::str::len": m_str_len,
     "std::cmp::min": m_min,
     "std::cmp::max": m_min,
     "std::cmp::Ord::min": m_min,
